@@ -54,13 +54,13 @@ theorem satCacheQuery_spec {α : Type} (m : M α) (extra : List Con) (Good : α 
           rcases herr with ⟨_, hn⟩ | hg
           · exact hn
           · exact absurd hg.1 (by simp)
-        simp only [beq_self_eq_true, ↓reduceIte, M.bind]
+        simp only [beq_self_eq_true, ↓reduceIte]
         by_cases hex : extra.isEmpty = true
         · have hnil : extra = [] := by simpa using hex
           subst hnil
-          simp only [List.isEmpty_nil, ↓reduceIte, M.modifyFe_apply, M.throw_apply]
+          simp only [List.isEmpty_nil, ↓reduceIte, M.modifyFe_apply]
           exact ⟨Or.inl ⟨rfl, hnsat⟩, h1.set_cachedSat _ (scInv_false (by simpa using hnsat)), hk1.trans (Keep.of_fe rfl rfl)⟩
-        · simp only [hex, Bool.false_eq_true, ↓reduceIte, pure, M.pure, M.throw_apply]
+        · simp only [hex, Bool.false_eq_true, ↓reduceIte, M.throw_apply]
           exact ⟨Or.inl ⟨rfl, hnsat⟩, h1, hk1⟩
       · simp only [hun, Bool.false_eq_true, ↓reduceIte]
         exact ⟨herr, h1, hk1⟩
@@ -217,13 +217,13 @@ theorem satCache_solution_spec {self sup : Ops} (e : Exp) (v : Nat) (extra : Lis
           rcases herr with ⟨_, hn⟩ | hg
           · exact hn
           · exact absurd hg.1 (by simp)
-        simp only [beq_self_eq_true, ↓reduceIte, M.bind]
+        simp only [beq_self_eq_true, ↓reduceIte]
         by_cases hex : extra.isEmpty = true
         · have hnil : extra = [] := by simpa using hex
           subst hnil
-          simp only [List.isEmpty_nil, ↓reduceIte, M.modifyFe_apply, M.throw_apply]
+          simp only [List.isEmpty_nil, ↓reduceIte]
           exact ⟨Or.inl ⟨rfl, hnsat⟩, h1.set_cachedSat _ (scInv_false (by simpa using hnsat)), hk1.trans (Keep.of_fe rfl rfl)⟩
-        · simp only [hex, Bool.false_eq_true, ↓reduceIte, pure, M.pure, M.throw_apply]
+        · simp only [hex, Bool.false_eq_true, ↓reduceIte, M.throw_apply]
           exact ⟨Or.inl ⟨rfl, hnsat⟩, h1, hk1⟩
       · simp only [hun, Bool.false_eq_true, ↓reduceIte]
         exact ⟨herr, h1, hk1⟩
